@@ -55,6 +55,12 @@ def run(tier):
     for c in ncases:
         ctx.case("nested:" + c["src"])
     validate(ctx, ncases, [dict(tag, shape=shape(e), supported=sg.supported_interpreted(e), records="nested") for e, tag in nx], "C07 typed matchers on nested records", prop=PROP, envs=nenvs)
+    # ... and over records of ONE type name in different layouts, met one after the other
+    lrecs, lenvs = sg.layout_records()
+    lcases = [sg.make_case(e, lrecs, [{} for _ in lrecs]) for e, tag in nx]
+    for c in lcases:
+        ctx.case("layouts:" + c["src"])
+    validate(ctx, lcases, [dict(tag, shape=shape(e), supported=sg.supported_interpreted(e), records="layouts") for e, tag in nx], "C07 typed matchers on one type name in three layouts", prop=PROP, envs=lenvs)
     ctx.exhaustive = thorough
     ctx.extra["rule"] = ("expressions of depth <= 2 from the selector grammar (10 groups: cmp, bin, call, chain, gen, l2cmp, neg, bool, not, helper); quick samples each group "
                          "proportionally with the seed, thorough takes all; distinct = distinct expression texts; each is evaluated on 3 records by 2 engines")
